@@ -114,6 +114,10 @@ def safe_get(obj, instance, owner):
 def iter_call(obj):
     while True:
         yield obj
+        if isinstance(obj, type):
+            # calling a class makes an instance: the __call__ it defines is
+            # for its instances
+            return
         try:
             obj = obj.__call__
             obj.__code__.co_filename
